@@ -86,8 +86,8 @@ where
                 x ^= x << 5;
                 x as u8
             }
-            1 => (i as u32 * 29 + x) as u8,
-            _ => ((i as u32 + x) % 251) as u8 ^ 0x5a,
+            1 => (i as u32).wrapping_mul(29).wrapping_add(x) as u8,
+            _ => ((i as u32).wrapping_add(x) % 251) as u8 ^ 0x5a,
         })
         .collect();
     let offset = Point::new(d.i(-9, 9), d.i(-9, 9));
